@@ -513,18 +513,23 @@ def struct_unpack(it, fmt, buf):
 def struct_unpack_from(it, fmt, buf, offset=0):
     """struct.unpack_from: the buffer may be longer than the format."""
     size = _struct.calcsize(fmt)
-    if is_symbolic(offset):
-        raise Unsupported('unpack_from with a symbolic offset')
-    if isinstance(buf, (bytes, bytearray)):
+    if isinstance(buf, (bytes, bytearray)) and not is_symbolic(offset):
         return it.host_call(_struct.unpack_from, fmt, bytes(buf), offset)
-    if not isinstance(buf, SBytes):
+    if not isinstance(buf, (SBytes, bytes, bytearray)):
         it.throw(TypeError, "a bytes-like object is required")
+    buf = ops.as_sbytes(buf)
     n = buf.zlen()
+    offset = offset if isinstance(offset, int) else zint(offset)
+    if not isinstance(offset, int) and not it.path.implied(offset >= 0):
+        raise Unsupported('unpack_from with a possibly negative offset')
+    if isinstance(offset, int) and offset < 0:
+        raise Unsupported('unpack_from with a negative offset')
     if not it.truth(mk_bool(n - offset >= size)):
         it.throw(_struct.error, 'unpack_from requires a buffer of at least '
-                 '%d bytes' % (size + offset))
-    return struct_unpack(it, fmt, ops.bytes_slice(
-        it, buf, slice(offset, offset + size)))
+                 '%d bytes for unpacking at the given offset' % size)
+    lo = offset if isinstance(offset, int) else SInt(offset)
+    hi = offset + size if isinstance(offset, int) else SInt(offset + size)
+    return struct_unpack(it, fmt, ops.bytes_slice(it, buf, slice(lo, hi)))
 
 
 def struct_pack(it, fmt, vals):
